@@ -2,6 +2,10 @@
 import random
 import dbggen, dbgcommon
 
+# observations the property does not speak about: a difference in these alone breaks the correspondence
+# but is not an input on which the property fails (reported with no-failing-input-found)
+AUX = ('debugger output differs', 'cmds differs', 'attached differs', 'bps differs')
+
 ASSUMPTIONS = [
     "one stream, two readers: when the script does not end in quit/exit the program gets no console input (the debugger's stdin reader would consume it as commands)",
     "commands reach the model parsed (the command language is C14's); the script text is rendered canonically from the same values",
@@ -31,7 +35,7 @@ def correspondence(ctx, violations, known_hits):
     rnd, specs, pairs = gen(ctx.tier, ctx.seed)
     cases, tags = dbgcommon.make_cases(rnd, specs)
     profiles = ("debug",) if ctx.tier == "quick" else ("debug", "release")
-    r = dbgcommon.run_dbg_cases(ctx, cases, tags, violations, profiles,
+    r = dbgcommon.run_dbg_cases(ctx, cases, tags, violations, profiles, aux=AUX,
                                 note="model: a read-only script never changes the machine (C09_transparent)")
     # direct: the implementation's debugged run vs its own plain run
     ri, _ = r["results"]["debug"]
